@@ -130,7 +130,14 @@ class Val:
         o = Obj("value", {"name": name, "sign": sign, "fmt": ("-" if sign < 0 else "") + name})
         o.methods["unop"] = lambda op: Val(name, -sign) if op == "USub" else (o if op == "UAdd" else Unk("unop"))
         o.methods["binop"] = lambda op, other, refl: Unk(f"arith({name})")
-        o.methods["compare"] = lambda op, other: Unk("compare value")
+        def compare(op, other):
+            same = isinstance(other, Obj) and other.kind == "value" and other.attrs["fmt"] == o.attrs["fmt"]
+            if op == "Eq":
+                return same
+            if op == "NotEq":
+                return not same
+            return Unk("compare value")
+        o.methods["compare"] = compare
         return o
 
 
